@@ -63,6 +63,9 @@ def subjects(seed, n):
         if len(ts) == 1:
             body = "let d0: Data = p0\n    let d: Data = [d0]"
         vsrc = src + f"\n\nvalidator probe({params}) {{\n  withdraw(r: Data, _c: Data, _tx: Data) {{\n    {body}\n    d == r\n  }}\n\n  else(_) {{\n    fail\n  }}\n}}\n"
+        # siblings in the same module whose names share a prefix with the target (`probe_v2` extends it,
+        # `pro` is a prefix of it): applying a parameter to `probe` must leave them exactly as they were
+        vsrc += "\nvalidator probe_v2(q0: Int, q1: ByteArray) {\n  withdraw(r: Data, _c: Data, _tx: Data) {\n    let d: Data = (q0, q1)\n    d == r\n  }\n\n  mint(_r: Data, _p: ByteArray, _tx: Data) {\n    q0 > 0\n  }\n\n  else(_) {\n    fail\n  }\n}\n\nvalidator pro(z: Int) {\n  withdraw(r: Data, _c: Data, _tx: Data) {\n    let d: Data = z\n    d == r\n  }\n\n  else(_) {\n    fail\n  }\n}\n"
         out.append((vsrc, [M.show(t) for t in ts], conf, bad))
     return out
 
@@ -122,7 +125,7 @@ def main():
         m = meta[j["id"]]
         s, bp = work[m[1]]
         src, tstrs, conf, bad = s
-        orig = next(v for v in bp["validators"] if v["title"].endswith(".withdraw"))
+        orig = next(v for v in bp["validators"] if v["title"] == "m.probe.withdraw")
         w0 = {"source": src, "parameter_types": tstrs}
         if "steps" not in r:
             if "panic" in r or "died" in r:
@@ -159,7 +162,7 @@ def main():
                 break
             if st.get("reload_eq") is not True:
                 chk.violation("C18|save-load-between-steps-changes-blueprint", {**w, "observed": {k2: v for k2, v in st.items() if k2 != "ok"}})
-            val = next(v for v in st["ok"]["validators"] if v["title"].endswith(".withdraw"))
+            val = next(v for v in st["ok"]["validators"] if v["title"] == "m.probe.withdraw")
             now_params = [p.get("title") for p in val.get("parameters", [])]
             if now_params != prev_params[1:]:
                 chk.violation("C18|remaining-parameters-are-not-the-tail", {**w, "before": prev_params, "after": now_params})
@@ -170,6 +173,13 @@ def main():
             want_hash = hashlib.blake2b(bytes([int(declared[1:])]) + bytes.fromhex(val["compiledCode"]), digest_size=28).hexdigest()
             if val["hash"] != want_hash:
                 chk.violation("C18|published-hash-is-not-the-hash-of-the-new-code", {**w, "declared_plutus_version": declared, "published": val["hash"], "recomputed": want_hash})
+            # every entry of every *other* validator is exactly what it was before the application
+            before = {v["title"]: v for v in bp["validators"]}
+            for other in st["ok"]["validators"]:
+                if other["title"].split(".")[:2] != ["m", "probe"]:
+                    chk.count("sibling_entries_checked")
+                    if other != before.get(other["title"]):
+                        chk.violation("C18|apply-changes-another-validator", {**w, "target": "m.probe", "changed": other["title"], "before": {k2: (v2 if k2 != "compiledCode" else v2[:40] + "...") for k2, v2 in (before.get(other["title"]) or {}).items() if k2 in ("hash", "parameters", "compiledCode")}, "after": {k2: (v2 if k2 != "compiledCode" else v2[:40] + "...") for k2, v2 in other.items() if k2 in ("hash", "parameters", "compiledCode")}})
             # all handlers of one validator share code and hash
             for other in st["ok"]["validators"]:
                 if other["title"].split(".")[:2] == val["title"].split(".")[:2] and (other["compiledCode"] != val["compiledCode"] or other["hash"] != val["hash"]):
